@@ -9,6 +9,7 @@ open Chess.Props.C06
 #print axioms parse_castle_lt
 #print axioms parse_clocks
 #print axioms parse_WF
+#print axioms build_WF
 #print axioms Chess.Props.C06.validate_iff_valid
 #print axioms Chess.Props.C06.wf_valid
 #print axioms Chess.Props.C06.parse_valid
